@@ -1,8 +1,9 @@
 #!/usr/bin/env python3
-# tools/storeseed.py <ID> <change> <needs> <check_result> — move a confirmed seeded change from /tmp/seed-<ID> to /verif/seeded/<ID>
+# tools/storeseed.py <ID> <change> <needs> <check_result> [suffix, e.g. -2 for a second round] — move a confirmed seeded change from /tmp/seed-<ID> to /verif/seeded/<ID>
 import json, os, shutil, sys
 id_, change, needs, result = sys.argv[1:5]
-src, dst = f"/tmp/seed-{id_}", f"/verif/seeded/{id_}"
+round_ = sys.argv[5] if len(sys.argv) > 5 else ""
+src, dst = f"/tmp/seed-{id_}", f"/verif/seeded/{id_}{round_}"
 os.makedirs(dst, exist_ok=True)
 for f in os.listdir(src):
     shutil.copy(os.path.join(src, f), os.path.join(dst, "agent_notes.md" if f == "notes.md" else f))
